@@ -26,6 +26,11 @@ func genC06(g *gen, tier string) *Scenario {
 	sc.Cache.CostFn = g.pct(30)
 	sc.Sim.Drift = pick(g, 1, 2, 3)
 	sc.Sim.MaxSteps = 2000000
+	if g.pct(25) {
+		// recycled entries: a fresh entry must be governed by the new call only
+		sc.Cache.Pool = true
+		sc.Sim.PoolReuse = pick(g, 50, 90, 100)
+	}
 	pressure := g.pct(40)
 	nc := g.rng(1, 3)
 	perClient := g.rng(1, 3)
@@ -301,7 +306,13 @@ func checkC06(rd *RunData) []Violation {
 			if w, bad := rejected[r.Val]; bad {
 				vs = append(vs, Violation{"C06/rejected-set-visible", fmt.Sprintf("%s returned value %d which %s had refused to store (returned false)", r.Op, r.Val, w.Op)})
 			}
-			if l, ok := loaderVal[r.Val]; ok && l.Outcome == "ok" && l.Cost > cfg.MaxSize && r.Inv > l.End {
+			effCost := func(l LdRec) int64 {
+				if l.Cost == 0 && cfg.CostFn {
+					return costOf(l.Val) // the loader left the cost to the configured cost function
+				}
+				return l.Cost
+			}
+			if l, ok := loaderVal[r.Val]; ok && l.Outcome == "ok" && effCost(l) > cfg.MaxSize && r.Inv > l.End {
 				// not one of the callers of that load: it read the value from the cache
 				joined := false
 				for _, g := range recs {
@@ -310,7 +321,7 @@ func checkC06(rd *RunData) []Violation {
 					}
 				}
 				if !joined {
-					vs = append(vs, Violation{"C06/oversize-admitted/loader", fmt.Sprintf("%s read value %d from the cache; the loader had returned it with cost %d > MaxSize %d, so it must not have been admitted", r.Op, r.Val, l.Cost, cfg.MaxSize)})
+					vs = append(vs, Violation{"C06/oversize-admitted/loader", fmt.Sprintf("%s read value %d from the cache; the loader had returned it with cost %d > MaxSize %d, so it must not have been admitted", r.Op, r.Val, effCost(l), cfg.MaxSize)})
 				}
 			}
 		}
